@@ -91,8 +91,8 @@ def handle : DrvHandler := fun op args =>
       | .error e => some (err (errTag e))
       | .ok .ignored => some (ok (.str "ignored"))
       | .ok (.done d) => some (ok (decisionJson d))
-  | "C13.kasleep", [l, jt] => do
-      some (ok (jInt (kaSleep (← jInt? l) (← jInt? jt))))
+  | "C13.kasleep", [u, l, jt] => do
+      some (ok (jInt (kaSleepT (← jInt? u) (← jInt? l) (← jInt? jt))))
   | "C13.touch", [u, p, l, now] => do
       match touchVal (← jInt? u) (← jInt? p) (← jInt? l) (← jInt? now) with
       | none => some (ok .null)
